@@ -31,11 +31,14 @@ TimedTaskScheduler::~TimedTaskScheduler() {
 }
 
 void TimedTaskScheduler::kickOffTask(std::shared_ptr<detail::TimedTaskImpl> next, double curTime) {
+  DISPENSO_VERIF_POINT("tt.kick.ttr.fetch_sub", next.get());
   size_t remaining = next->timesToRun.fetch_sub(1, std::memory_order_acq_rel);
   if (remaining == 1) {
     auto* np = next.get();
+    DISPENSO_VERIF_POINT("tt.kick.func.call", np);
     np->func(std::move(next));
   } else if (remaining > 1) {
+    DISPENSO_VERIF_POINT("tt.kick.func.call", next.get());
     next->func(next);
 
     if (next->steady) {
